@@ -398,10 +398,14 @@ def extract_function_range_starts_mid_statement(mod, req):
         parent = parent.parent
     if parent.type in EXPRESSION_TYPES:
         return False                    # expression mode
-    stmt = start
-    while stmt.parent is not None and stmt.parent.type not in ('suite', 'file_input'):
-        stmt = stmt.parent
-    return stmt.parent is not None and stmt.start_pos[0] < sel[0][0]
+    # the first node jedi selects: the covering node, or the first child of a covering suite in range
+    stmt = parent
+    if parent.type in ('suite', 'file_input'):
+        inr = [c for c in parent.children if c.end_pos > sel[0]]
+        if not inr:
+            return False
+        stmt = inr[0]
+    return stmt.start_pos[0] < sel[0][0]
 
 
 def c07_shape_of(src, request):
@@ -436,18 +440,17 @@ def _err(observed):
 # shape -> (kinds, predicate, {stream: allowed error classes or None for any})
 ANY = None
 RULES = [
+    # rules of root causes that stay (no fix proposed) come before those of proposed fixes, so that on a tree
+    # with the fixes applied a failure is never attributed to a root cause that is gone
+    ('inline-definition-first-on-semicolon-line', ('inline',),
+     lambda m, r, ls: inline_definition_first_on_semicolon_line(m, r),
+     {'oracle-compile': ('IndentationError',), 'oracle-roundtrip': ('IndentationError',)}),
     ('inline-slot-without-parentheses', ('inline',), lambda m, r, ls: inline_slot_without_parentheses(m, r),
      {'oracle-compile': ('SyntaxError',), 'oracle-equiv': ANY, 'oracle-parens': ANY}),
     ('inline-attribute-reference-slot', ('inline',), lambda m, r, ls: inline_attribute_reference_slot(m, r),
      {'oracle-compile': ('SyntaxError',), 'oracle-equiv': ANY}),
-    ('inline-definition-first-on-semicolon-line', ('inline', 'extract_variable+inline'),
-     lambda m, r, ls: inline_definition_first_on_semicolon_line(m, r),
-     {'oracle-compile': ('IndentationError',), 'oracle-roundtrip': ('IndentationError',)}),
     ('extract-function-defining-name', ('extract_function',),
      lambda m, r, ls: extract_function_defining_name(m, r), {'oracle-compile': ('SyntaxError',)}),
-    ('extract-range-drops-unary-operator', ('extract_variable', 'extract_function'),
-     lambda m, r, ls: extract_range_drops_unary_operator(m, r),
-     {'oracle-compile': ('SyntaxError',), 'oracle-equiv': ANY}),
     ('extract-multiline-selection-loses-brackets', ('extract_variable', 'extract_function'),
      lambda m, r, ls: extract_multiline_selection_loses_brackets(m, r, ls),
      {'oracle-compile': ('SyntaxError', 'IndentationError')}),
@@ -463,6 +466,9 @@ RULES = [
      {'oracle-equiv': ('UnboundLocalError', 'NameError', 'differs')}),
     ('extract-range-regroups-operator-chain', ('extract_variable', 'extract_function'),
      lambda m, r, ls: extract_range_regroups_operator_chain(m, r), {'oracle-equiv': ANY}),
+    ('extract-range-drops-unary-operator', ('extract_variable', 'extract_function'),
+     lambda m, r, ls: extract_range_drops_unary_operator(m, r),
+     {'oracle-compile': ('SyntaxError',), 'oracle-equiv': ANY}),
 ]
 
 
